@@ -214,6 +214,7 @@ def seq_plan(ctx):
         ("validators", dict(L=5 if t else 4, Alpha=S("reg", "unreg", "pub", "next", "ppub", "addb"), Vals=S("accept", "reject", "ignore", "bad", "rejectTo", "rejectBool", "acceptBool", "rejectV", "ignoreEx", "weird"),
                             IdFn='"name"', ProName='"subA12"', MaxM=3), 3000, 30000),
         ("validators-handles", dict(L=5 if t else 4, Alpha=S("reg", "unreg", "pub", "join", "close"), Vals=S("reject"), ProName='"joinA"', MaxM=3), 600, 6000),
+        ("validators-2topics", dict(L=4 if t else 3, Alpha=S("reg", "unreg", "pub", "next"), GT=S("A", "B"), Vals=S("reject", "ignore"), ProName='"subAB"', MaxM=3), 700, 8000),
         ("modes", dict(L=2, Alpha=S("pub", "reg", "next"), Modes=S(*ALLMODES), Vals=S("reject", "acceptTo"), ProName='"subA12"', MaxM=6, **NET), 1500, 3000),
         ("score-floodsub", dict(L=3, Alpha=S("score", "close", "join"), ProName='"joinA"'), 200, 200),
         ("score-gossipsub", dict(L=3, Alpha=S("score", "close", "join"), ProName='"joinA"', Router='"gossipsub"'), 200, 200),
@@ -299,7 +300,9 @@ def forced_seq():
             {"o": "pub", "h": 2, "m": "m4"}, {"o": "rmsg", "p": "p1", "t": "A", "m": "a4"}, {"o": "unreg", "t": "A"}, {"o": "unreg", "t": "A"},
             {"o": "reg", "t": "A", "v": "block", "conc": 2}, {"o": "rmsg", "p": "p1", "t": "A", "m": "a5"}, {"o": "rmsg", "p": "p1", "t": "A", "m": "a6"},
             {"o": "rmsg", "p": "p1", "t": "A", "m": "a7"}, {"o": "rel"}, {"o": "rmsg", "p": "p1", "t": "A", "m": "a8"}, {"o": "rel"}, {"o": "rel"},
-            {"o": "next", "s": 2}, {"o": "next", "s": 2}, {"o": "next", "s": 2}]},
+            {"o": "next", "s": 2}, {"o": "next", "s": 2}, {"o": "next", "s": 2}, {"o": "unreg", "t": "A"}, {"o": "reg", "t": "A", "v": "block", "conc": 1},
+            {"o": "rmsg", "p": "p1", "t": "A", "m": "a9"}, {"o": "rmsg", "p": "p1", "t": "A", "m": "a10"}, {"o": "rel"}, {"o": "rmsg", "p": "p1", "t": "A", "m": "a11"},
+            {"o": "rel"}, {"o": "next", "s": 2}, {"o": "next", "s": 2}]},
         # publish options and errors, fanout without own subscription, relay-only forwarding, no interest = ignored and not seen
         {"cfg": cfg(peers=2), "ops": [
             J(), {"o": "pub", "h": 1, "m": "m1"}, {"o": "rmsg", "p": "p1", "t": "A", "m": "a1"}, {"o": "relay", "h": 1}, {"o": "rmsg", "p": "p1", "t": "A", "m": "a1"},
@@ -545,7 +548,7 @@ SEQ_OBLIGATIONS = {
     "validator registry": ["reg:ok", "reg:duplicate", "reg:badtype", "unreg:ok", "unreg:absent", "regAgainAfterUnreg", "validatorSurvivesRejoin",
                            "regType:bool", "regType:V", "regType:Ex", "regWeird"],
     "validator invocation contexts and options": ["vc:local", "vc:async", "vc:inline", "vcTimeout:async", "vcTimeout:local", "vcValidatorData"],
-    "validator concurrency boundary": ["parkedBelowConc:0", "parkedBelowConc:1", "throttledAtConc", "released"],
+    "validator concurrency boundary (n = 1 and n = 2)": ["parkedBelowConc:0", "parkedBelowConc:1", "throttledAtConc:1", "throttledAtConc:2", "released"],
     "remote messages: ignored without interest, relay-only forwarding, duplicate": ["remoteNoInterestIgnored", "relayOnlyForwarded", "subscribedForwarded", "remoteDuplicate"],
     "interest edges by each entry point": ["edge:Join:sub", "edge:Join:psub", "edge:Join:relay", "edge:Leave:cancel", "edge:Leave:unrelay"],
     "SetScoreParams on every router flavour": ["score:ok", "score:invalidparams", "score:closed", "score:notgossipsub", "score:noscoring"],
